@@ -179,8 +179,8 @@ CHECKS["C16"] = dict(
          "client data store as Apply(state, operation) -> (state, answer) over 67 public methods (written from the base-class "
          "docstrings and the lifecycle oracle), explored on its own (MC_Backends). Every operation sequence is applied call by "
          "call, under one controlled clock, to a memory and a SQLite application with the same named invocations / runners / "
-         "conditions / triggers: every sequence of length 1 and 2 over the concrete alphabet after four prepared states "
-         "(exhaustive in the thorough tier, sampled pairs in the quick tier), generated system lives (register, wait, valid status "
+         "conditions / triggers: every single operation and sampled pairs (700 quick / 12,000 thorough of 64,009 per state) over the "
+         "concrete alphabet after four prepared states, generated system lives (register, wait, valid status "
          "paths, purge period, auto-purge, second round) and seeded random sequences of 150-400 operations with clock jumps onto "
          "the timeouts. BackendsTrace.tla steps the model and compares answer with answer, answer with model, and a full "
          "read-out of both applications with each other and with the model state after every call."),
